@@ -74,10 +74,17 @@ def apply_op(F, d, op):
             return d[[i % n for i in op['idx']]] if n else d[[]]
         raise ValueError(form)
     if k == 'to_rfi':
+        if op.get('positions') is not None:
+            D = d.shape[1]
+            return F.transform.to_rfi(d, sorted({p % D for p in op['positions']}))
         return F.transform.to_rfi(d, resolve_channels(d, op['names']))
     if k == 'to_mef':
-        chs = resolve_channels(d, op['names'])
-        scs = [functools.partial(powerlaw, m, b) for m, b in op['params'][:len(chs)]]
+        if op.get('positions') is not None:
+            D = d.shape[1]
+            chs = sorted({p % D for p in op['positions']})
+        else:
+            chs = resolve_channels(d, op['names'])
+        scs = [functools.partial(powerlaw, m, b) for m, b in (op['params'] * 3)[:len(chs)]]
         return F.transform.to_mef(d, chs, scs, chs)
     if k == 'start_end':
         return F.gate.start_end(d, num_start=op['a'], num_end=op['b'])
@@ -121,11 +128,17 @@ def gen_op(rng, chs):
             op['idx'] = [rng.randint(0, 50) for _ in range(rng.randint(0, 6))]
         return op
     if k == 'to_rfi':
-        return {'op': k, 'names': sub(1)}
+        op = {'op': k, 'names': sub(1)}
+        if rng.chance(0.35):
+            op['positions'] = [rng.randint(0, 7) for _ in range(rng.randint(1, 2))]
+        return op
     if k == 'to_mef':
         names = sub(1)
-        return {'op': k, 'names': names,
-                'params': [[round(0.9 + 0.3 * rng.rand(), 3), round(rng.rand() * 4, 3)] for _ in names]}
+        op = {'op': k, 'names': names,
+              'params': [[round(0.9 + 0.3 * rng.rand(), 3), round(rng.rand() * 4, 3)] for _ in names]}
+        if rng.chance(0.35):
+            op['positions'] = [rng.randint(0, 7) for _ in range(rng.randint(1, 2))]
+        return op
     if k == 'start_end':
         return {'op': k, 'a': rng.randint(0, 3), 'b': rng.randint(0, 3)}
     if k == 'high_low':
@@ -211,10 +224,30 @@ class C20Machine(Machine):
                     cur = [n for n in op['names'] if n in cur] or cur[:1]
                 elif op['op'] == 'slice_channels':
                     pass     # generator keeps a superset; executor resolves names that still exist
+        if rng.chance(0.08) and len(chs) >= 2:
+            # scenario: a positional slice that repeats a column, a conversion that addresses only ONE of the
+            # copies by position, then restarts - the two equally named columns now carry different metadata
+            a, b = rng.sample(range(len(chs)), 2)
+            pos = [a, b, a] if rng.chance(0.5) else [b, a, a]
+            conv = rng.choice(['to_rfi', 'to_mef'])
+            op2 = {'op': conv, 'names': [], 'positions': [len(pos) - 1]}
+            if conv == 'to_mef':
+                op2['params'] = [[1.07, 1.5]]
+            ops = [{'op': 'slice_channels', 'form': 'positions', 'names': [], 'positions': pos}, op2,
+                   {'op': 'restart', 'kind': rng.choice(RESTARTS), 'fresh': False},
+                   {'op': 'restart', 'kind': rng.choice(RESTARTS), 'fresh': False}]
         eqop = None
         if rng.chance(0.5):
             eqop = rng.choice(['same', 'event', 'keyword', 'analysis'])
-        return {'spec': spec, 'ops': ops, 'eq': eqop, 'eqseed': rng.randint(0, 10 ** 6)}
+        case = {'spec': spec, 'ops': ops, 'eq': eqop, 'eqseed': rng.randint(0, 10 ** 6)}
+        if rng.chance(0.12):
+            case['fileobj'] = True
+            case['close_handles'] = rng.chance(0.5)
+            for o in ops:
+                if o['op'] == 'restart' and o['kind'].startswith('pickle'):
+                    o['kind'] = rng.choice(['copy', 'copy.copy', 'deepcopy', 'view'])
+                    o['fresh'] = False
+        return case
 
     def summarise(self, case):
         c = copy.deepcopy(case)
@@ -266,9 +299,21 @@ class C20Machine(Machine):
         try:
             dk.write('f.fcs', b)
             path = dk.materialise('f.fcs')
+            handles = []
             try:
-                P = F.io.FCSData(path)
-                R = F.io.FCSData(path)
+                if case.get('fileobj'):
+                    # documented alternative: the caller hands in an open binary file (such a sample cannot be
+                    # pickled - the handle is part of it - so only the in-memory restarts apply)
+                    handles = [open(path, 'rb'), open(path, 'rb')]
+                    P = F.io.FCSData(handles[0])
+                    R = F.io.FCSData(handles[1])
+                    if case.get('close_handles'):
+                        for h in handles:
+                            h.close()
+                    out['probes']['loaded_from_open_file_object'] = 1
+                else:
+                    P = F.io.FCSData(path)
+                    R = F.io.FCSData(path)
             except Exception as e:
                 # not this property's business (C01/C17): record and stop
                 log.add('load-failed', type(e).__name__)
@@ -399,6 +444,11 @@ class C20Machine(Machine):
             if case.get('eq'):
                 self.eq_history(F, dk, case, spec, b, out, log)
         finally:
+            for h in locals().get('handles', []):
+                try:
+                    h.close()
+                except Exception:
+                    pass
             dk.teardown()
         out['digest'] = log.digest()
         out['summary'] = {'violations': len(V)}
